@@ -69,7 +69,7 @@ theorem Frames.liftI (m : M In α) (h : NoStruct m) : Frames (liftI m) := by
   intro s
   unfold Sc.liftI
   cases hm : m s.inp with
-  | ok r => exact ⟨rfl, rfl, rfl, rfl, rfl, rfl, ⟨[], by simp⟩⟩
+  | ok r => exact ⟨rfl, rfl, rfl, rfl, rfl, rfl, ⟨[], (List.append_nil _).symm⟩⟩
   | err e => trivial
   | panic p => exact h.out _ _ hm
 
@@ -176,7 +176,7 @@ macro "frames" : tactic => `(tactic|
         | exact NoStruct.peekNth _ | exact NoStruct.lookCh | exact NoStruct.next2Are _ _
         | exact NoStruct.nextIs _ _ | exact NoStruct.nextCharIs _ | exact NoStruct.nthCharIs _ _
         | exact NoStruct.rawRead)
-    | (apply Frames.modS; intro s; exact ⟨rfl, rfl, rfl, rfl, rfl, rfl, ⟨[], by simp⟩⟩)
+    | (apply Frames.modS; intro s; exact ⟨rfl, rfl, rfl, rfl, rfl, rfl, ⟨[], (List.append_nil _).symm⟩⟩)
     | assumption
     | apply_assumption
     | apply Frames.bind
